@@ -181,6 +181,52 @@ class Unit:
         self.candidate_replays(ctx, progs, failed)
         shutil.rmtree(os.path.join(ctx.dir, 'replay_run'), ignore_errors=True)
 
+    def fallback_harnesses(self, ctx, prog, fns):
+        """[(harness, label)] : bounded Kani twins that stand in for the Verus obligations `fns` of prog when Verus cannot take the
+        generated code (unsupported construct).  Default: the unit's thorough-tier harnesses."""
+        saved = ctx.tier
+        ctx.tier = 'thorough'
+        try:
+            return self.kani_harnesses(ctx, prog)
+        finally:
+            ctx.tier = saved
+
+    def kani_fallback(self, ctx, progs, already):
+        """DESIGN 14: where a generated function is outside Verus' subset (status `error`: unsupported construct, not a failed
+        obligation) the Kani twin of that function on the real code stands in, labelled bounded."""
+        und = [o for o in ctx.obligations if o.status == 'undecided' and o.backend == 'verus' and 'verus status=error' in (o.detail or '')]
+        if not und:
+            return
+        by_prog = {}
+        for o in und:
+            by_prog.setdefault(o.prog, []).append(o)
+        todo = [p for p in progs if p.name in by_prog]
+        have = {}
+        for p in todo:
+            hs = self.fallback_harnesses(ctx, p, [o.fn for o in by_prog[p.name]])
+            if hs:
+                have[p.name] = hs
+        if not have:
+            return
+        run_progs = [p for p in todo if p.name in have]
+        saved_h = self.kani_harnesses
+        self.kani_harnesses = lambda c, pr: have.get(pr.name, [])
+        before = len(ctx.obligations)
+        try:
+            if not all(p.name in already for p in run_progs):
+                self.kani_all(ctx, [p for p in run_progs if p.name not in already])
+        finally:
+            self.kani_harnesses = saved_h
+        for p in run_progs:
+            ko = [o for o in ctx.obligations if o.backend == 'kani' and o.prog == p.name]
+            if ko and all(o.status in ('discharged', 'failed') for o in ko):
+                dropped = by_prog[p.name]
+                ctx.obligations = [o for o in ctx.obligations if o not in dropped]
+                why = (dropped[0].detail or '').split('\n')[1:3]
+                ctx.not_verified_by_verus.add('%s: %s outside Verus\' subset (%s); bounded Kani twin(s) %s stand in' % (
+                    p.name, ', '.join(sorted(set(o.fn for o in dropped))), ' '.join(x.strip() for x in why)[:160], ', '.join(h for h, _ in have[p.name])))
+                ctx.bounded.append('%s: Verus could not take the generated code; decided by bounded Kani twin(s) on the real code' % p.name)
+
     def candidate_replay(self, ctx, prog, o):
         """-> Rust `main` source exercising the failed function on the cases its clauses talk about, or None."""
         return None
@@ -222,10 +268,14 @@ class Unit:
         if mods:
             ctx.obligations.extend(core.verify_modules(ctx, mods, per_file=self.per_file, extra_top=self.verus_top))
         skipped = [p for p in live if self.skip_verus(ctx, p)]
+        ran_kani_for = set()
         if ctx.tier == 'thorough' or self.kani_always:
             self.kani_all(ctx, live)
+            ran_kani_for = set(p.name for p in live)
         elif skipped:
             self.kani_all(ctx, skipped)
+            ran_kani_for = set(p.name for p in skipped)
+        self.kani_fallback(ctx, live, ran_kani_for)
         failed = [o for o in ctx.obligations if o.status == 'failed']
         if failed:
             try:
